@@ -1,9 +1,173 @@
+/-
+  Driver ops of group `reload` (C31).
+
+    rl <step>/<step>/…      one whole history of the daemon: start-up load, then one reload per step
+
+  step    = <zones>@<files>
+  zones   = `-` | zone{,zone}        zone = <namehex>:<class>:<path>       (path = a small number)
+  files   = `-` | file{,file}        file = <path>:<mtime>:<content>       (all files that exist)
+  content = ok.<id>.<apexhex>.<class>   a valid zone file for that apex/class whose SOA serial is <id>
+          | inv.<apexhex>.<class>       parses, but validation fails (no NS at the apex)
+          | bad                         not a zone file
+
+  A step whose zone list configures a (name, class) twice is a configuration error
+  (`config::find_duplicated_zone`): the daemon keeps its catalog. A file loads for a zone
+  configuration iff it is `ok` and its apex and class are the configured ones.
+
+  Reply, both columns: `ok <per step>;…`, per step `<g1>,…,<gn>|<l1>,…,<ln>` over the n distinct
+  (name, class) keys configured anywhere in the history, in order of first appearance:
+  gi = state of key i by exact `get`, li = state of the entry answering `x.<name i>` (`lookup`);
+  state = `-` (none) | `F` (SERVFAIL placeholder) | `L<id>` (serving data <id>).
+
+  Model column: `QV.Model.Reload.daemonStep` on the catalog model. Spec column: the per-zone
+  rule `QV.Spec.Reload.specStep` folded over each key's own view (`viewOf`), longest match by
+  `QV.Spec.Catalog.specLookup`; `-` (no constraint) when the history violates the environment
+  assumption `MtimeSound` for some key (a file changed content without getting a newer mtime).
+-/
 import QV.Driver.Util
+import QV.Driver.Catalog
+import QV.Model.ReloadView
 
 namespace QV.Driver
-open QV
+open QV QV.Catalog QV.Reload
 
-/-- ops of group `reload` — stub (not built yet) -/
-def reloadHandler : Handler := fun _ _ => none
+namespace Rl
+
+inductive Content where
+  | ok (id : Nat) (apex : DName) (cls : Nat)
+  | inv
+  | bad
+
+structure File where
+  path : Nat
+  mtime : Nat
+  content : Content
+
+def parseContent (s : String) : Option Content :=
+  match s.splitOn "." with
+  | ["bad"] => some .bad
+  | ["inv", _, _] => some .inv
+  | ["ok", i, a, c] => do
+    let i ← i.toNat?
+    let a ← Cat.parseName a
+    let c ← c.toNat?
+    pure (.ok i a c)
+  | _ => none
+
+def parseFile (s : String) : Option File :=
+  match s.splitOn ":" with
+  | [p, m, c] => do
+    let p ← p.toNat?
+    let m ← m.toNat?
+    let c ← parseContent c
+    pure ⟨p, m, c⟩
+  | _ => none
+
+def parseZone (s : String) : Option ZoneConfig :=
+  match s.splitOn ":" with
+  | [n, c, p] => do
+    let n ← Cat.parseName n
+    let c ← c.toNat?
+    let p ← p.toNat?
+    pure ⟨n, c, p⟩
+  | _ => none
+
+def parseList {α} (f : String → Option α) (s : String) : Option (List α) :=
+  if s = "-" then some [] else (s.splitOn ",").mapM f
+
+def mkFS (files : List File) : FS where
+  stat := fun p =>
+    match files.find? (·.path = p) with
+    | some f => .ok f.mtime
+    | none => .err
+  load := fun zc =>
+    match files.find? (·.path = zc.path) with
+    | some f =>
+      match f.content with
+      | .ok i apex c => if lowerName apex = lowerName zc.name ∧ c = zc.cls then .ok i else .fail
+      | _ => .fail
+    | none => .fail
+
+def hasDup : List Spec.Catalog.Key → Bool
+  | [] => false
+  | k :: r => r.contains k || hasDup r
+
+def parseStep (s : String) : Option Step :=
+  match s.splitOn "@" with
+  | [z, f] => do
+    let zones ← parseList parseZone z
+    let files ← parseList parseFile f
+    -- config.rs: "the zone {name}/{class} is configured more than once"
+    if hasDup (zones.map cfgKey) then pure .configError else pure (.reload zones (mkFS files))
+  | _ => none
+
+def zonesOf (s : String) : List ZoneConfig :=
+  match s.splitOn "@" with
+  | [z, _] => (parseList parseZone z).getD []
+  | _ => []
+
+def dedup : List (DName × Nat) → List (DName × Nat) → List (DName × Nat)
+  | acc, [] => acc.reverse
+  | acc, x :: r =>
+    if acc.any (fun y => y.2 = x.2 ∧ lowerName y.1 = lowerName x.1) then dedup acc r else dedup (x :: acc) r
+
+def showState : Option Spec.Reload.SZone → String
+  | none => "-"
+  | some .failed => "F"
+  | some (.good d _ _) => s!"L{d}"
+
+def xLabel : Label := [120]
+
+def showStep (g l : List (Option Spec.Reload.SZone)) : String :=
+  ",".intercalate (g.map showState) ++ "|" ++ ",".intercalate (l.map showState)
+
+/-- model column: the catalog after each step -/
+def runModel (keys : List (DName × Nat)) : Option Catalog → List Step → List String
+  | _, [] => []
+  | st, s :: r =>
+    let st' := daemonStep st s
+    let g := keys.map (fun k => (st'.bind (fun c => get c k.1 k.2)).map stateOf)
+    let l := keys.map (fun k => (st'.bind (fun c => lookup c (xLabel :: k.1) k.2)).map stateOf)
+    showStep g l :: runModel keys st' r
+
+open QV.Spec.Reload QV.Spec.Catalog in
+/-- spec column: each key's state evolves by `specStep` on its own view; `none` as soon as the
+    environment assumption fails for some key -/
+def runSpec (keys : List (DName × Nat)) :
+    List (Option SZone) → List Step → Option (List String)
+  | _, [] => some []
+  | prev, s :: r =>
+    let views := keys.map (fun k => viewOf (k.2, foldName k.1) s)
+    let sound := (prev.zip views).all (fun pv =>
+      match pv.2 with
+      | .configured v => decide (MtimeSound pv.1 v)
+      | _ => true)
+    if !sound then none else
+    let cur := (prev.zip views).map (fun pv => specStep pv.1 pv.2)
+    -- the finite map (class × name) ⇀ state of the zones that are served
+    let m : SMap SZone := (keys.zip cur).filterMap (fun kc =>
+      match kc.2 with
+      | some z => some ((kc.1.2, foldName kc.1.1), z)
+      | none => none)
+    let l := keys.map (fun k => specLookup m (xLabel :: k.1) k.2)
+    (runSpec keys cur r).map (showStep cur l :: ·)
+
+end Rl
+
+open Rl in
+def reloadHandler : Handler := fun op args =>
+  match op, args with
+  | "rl", [h] =>
+    let parts := h.splitOn "/"
+    match parts.mapM parseStep with
+    | some steps =>
+      let keys := dedup [] ((parts.flatMap zonesOf).map (fun zc => (zc.name, zc.cls)))
+      let m := "ok " ++ ";".intercalate (runModel keys none steps)
+      let s := match runSpec keys (keys.map (fun _ => none)) steps with
+        | some rs => "ok " ++ ";".intercalate rs
+        | none => "-"
+      some (m, s)
+    | none => some bad
+  | _, _ => none
 
 end QV.Driver
